@@ -199,7 +199,7 @@ func checkC03(c *Ctx) {
 			}
 			ncompile := 0
 			for _, e := range readEvents(logDir) {
-				if e.Kind == "toolexec.begin" && e.Str("tool") == "compile" {
+				if e.Kind == "toolexec.begin" && e.Str("tool") == "compile" && e.Pkg != "" {
 					ncompile++
 				}
 			}
